@@ -287,7 +287,7 @@ func TestPropExtraKeysDoNotChangeKind(t *testing.T) {
 			kv = append(kv, doc.StrNode(k), g.Any(1))
 		}
 		// random key order (pairs)
-		idx := rapid.Permutation(seq(len(kv) / 2)).Draw(t, "order")
+		idx := rapid.Permutation(seq(len(kv)/2)).Draw(t, "order")
 		var content []*yaml.Node
 		for _, i := range idx {
 			content = append(content, kv[2*i], kv[2*i+1])
